@@ -17,6 +17,7 @@ type vScript struct {
 	wa      [16]uint16
 	wv      [16]uint8
 	bound   int
+	sawHalt bool // a HALT opcode has been delivered (and so executed) in this Run
 	shapes  int  // instruction shapes offered: 1 HALT, 2 NOP, 4 JP nn, 8 LD BC,nn (INC A always); 0 = all
 	cpu     *CPU // when set, the device may raise an NMI while an instruction is fetched
 }
@@ -32,6 +33,9 @@ func (m *vScript) Get(addr uint16) uint8 {
 	}
 	k := m.fetches
 	m.fetches++
+	// Run returns in the iteration in which a HALT was executed: no instruction is
+	// fetched after one
+	vAssert("returns-once-halted", !m.sawHalt)
 	if m.cpu != nil && vCase(vBoolN("nmi", k)) {
 		// raised while this instruction runs: honoured at the next boundary
 		m.cpu.Interrupt = NMIInterrupt()
@@ -42,6 +46,7 @@ func (m *vScript) Get(addr uint16) uint8 {
 	}
 	// instruction shapes: HALT | NOP | JP nn | LD BC,nn | INC A
 	if sh&1 != 0 && vCase(vBoolN("halt", k)) {
+		m.sawHalt = true
 		return 0x76
 	}
 	if sh&2 != 0 && vCase(vBoolN("nop", k)) {
@@ -142,7 +147,6 @@ func VC08Script(bp, k, ints int) {
 			vAssert("write-log", vAnd(d1.wa[i] == d2.wa[i], d1.wv[i] == d2.wv[i]))
 		}
 	}
-	vAssert("cancel-released", vCancelReleased())
 }
 
 // ---- concrete program skeletons on a real (address-consistent) bus ---------
@@ -278,7 +282,6 @@ func VC08Prog(k int) {
 	vAssert("trace", vTraceSeqEq(bus1, bus2))
 	probe := vU16("probe")
 	vAssert("mem", bus1.Peek(probe) == bus2.Peek(probe))
-	vAssert("cancel-released", vCancelReleased())
 	// documented end points of the skeletons (independent of the twin)
 	switch k {
 	case 0:
@@ -468,7 +471,6 @@ func VC08Any(tbl, op, intr int) {
 			vAssert("port-log", vAnd(io1.oa[i] == io2.oa[i], io1.ov[i] == io2.ov[i]))
 		}
 	}
-	vAssert("cancel-released", vCancelReleased())
 }
 
 // ---- Run, change the breakpoints, Run again ------------------------------------
@@ -490,6 +492,7 @@ func VC08Twice(mode, k int) {
 	wk, _ := vTwinRun(c2, k)
 	vAssert("first-result", vErrKind(err) == wk)
 	vAssert("first-state", c1.States == c2.States)
+	d1.sawHalt, d2.sawHalt = false, false
 	if mode == 0 {
 		c1.BreakPoints = vMapU16Set("bq", 2)
 		c2.BreakPoints = vMapU16Set("bq", 2)
@@ -506,5 +509,4 @@ func VC08Twice(mode, k int) {
 	vAssert("second-steps", d1.fetches == d2.fetches)
 	vAssert("second-state", c1.States == c2.States)
 	vAssert("second-HALT", c1.HALT == c2.HALT)
-	vAssert("cancel-released", vCancelReleased())
 }
